@@ -317,6 +317,9 @@ func (d *driver) emitOps(h *history) {
 			case "sealrace":
 				if len(bf) == 0 {
 					ev, class = "EvCreate", "ops:create"
+				} else if racySeal(c.Step) {
+					d.w.Count("racy_seal_windows_not_compared")
+					continue
 				} else {
 					ev, class = "EvSealEvict", "ops:seal-evicted"
 				}
@@ -372,11 +375,38 @@ func (d *driver) emitShrinks(h *history) {
 	}
 }
 
+// racySeal: the call lets Active.Release and the deletion run in two threads at once. strace logs system
+// calls of different threads in the order it sees them return, which need not be the order in which the
+// kernel applied them, so states rebuilt from inside that stretch may never have existed: they are not
+// used (the deterministic schedules cover both orders; the end state of the racy ones is checked).
+func racySeal(s step) bool {
+	return s.Op == "sealrace" && !s.Hold && s.Park != "seal.swapped" && s.Park != "seal.released"
+}
+
+func (h *history) inRace(k int) bool {
+	for i, c := range h.Calls {
+		if !racySeal(c.Step) || c.Err != "" {
+			continue
+		}
+		lo, hi := h.window(i)
+		pub := -1
+		for j := lo; j < hi && j < len(h.Trace.Ops); j++ {
+			if o := h.Trace.Ops[j]; o.Kind == crashfs.Rename && strings.HasSuffix(o.Path2, ".index") {
+				pub = j
+			}
+		}
+		if pub >= 0 && k > pub+1 && k <= hi {
+			return true
+		}
+	}
+	return false
+}
+
 // crashPoints: before every create/rename/unlink, and the end.
 func (h *history) crashPoints() []int {
 	var out []int
 	for k, o := range h.Trace.Ops {
-		if isNameOp(o) && !h.inMultiDrop(k) {
+		if isNameOp(o) && !h.inMultiDrop(k) && !h.inRace(k) {
 			out = append(out, k)
 		}
 	}
